@@ -455,6 +455,9 @@ func (g *gen) field(idPrefix string, n int) (fieldSpec, map[string]any) {
 	}
 	opts := a.opts(g)
 	fs := fieldSpec{attr: a, opt: opts[g.rnd.Intn(len(opts))]}
+	for try := 0; g.nest && try < 3 && len(fs.opt.good) == 0; try++ { // requirement-tree mode: descriptors should be satisfiable
+		fs.opt = opts[g.rnd.Intn(len(opts))]
+	}
 	if g.edge > 0 && fs.opt.filter != nil && g.p(g.edgeNow) {
 		fs.opt = typeless(fs.opt)
 	}
@@ -543,7 +546,11 @@ func (g *gen) descriptor(i int) (*descSpec, map[string]any) {
 	if g.p(0.1) {
 		m["purpose"] = "to see"
 	}
-	if g.p(0.25) {
+	pFormat := 0.25
+	if g.nest {
+		pFormat = 0.08
+	}
+	if g.p(pFormat) {
 		d.format = g.format()
 		m["format"] = d.format
 	}
